@@ -13,7 +13,9 @@
 (* contract invariants).                                                                          *)
 EXTENDS StreamOps, Json
 
-CONSTANTS MaxSteps, DevAvg, DevArr, DevStale
+CONSTANTS MaxSteps, DevAvg, DevArr, DevStale,
+          DevEmpty      \* open finding filter.empty-array (decompress wipes a /Filter [] stream): the code as it
+                        \* is = the other switches FALSE and this one TRUE (MC_StreamOps_devEmpty.cfg)
 
 VARIABLES ss, last, steps
 vars == <<ss, last, steps>>
@@ -26,8 +28,11 @@ Candidates(x) ==
     (IF Len(x) >= 30 THEN {<<120, 218, Len(x)>>, <<120, 218>> \o [i \in 1..(Len(x) - 7) |-> 0]} ELSE {})
 
 S0(filters, form, parms, content, allows) ==
-    [filters |-> filters, form |-> form, parms |-> parms, length |-> Len(content), content |-> content,
+    [filters |-> filters, ff |-> IF filters = <<>> THEN "none" ELSE IF Len(filters) = 1 THEN "name" ELSE "array",
+     form |-> form, parms |-> parms, length |-> Len(content), content |-> content,
      allows |-> allows, orc |-> NoOracle]
+\* a chain of zero filters written as /Filter [] (ff = "array") or /Filter null (ff = "null")
+Zero(ff, form, content) == [S0(<<>>, form, <<>>, content, TRUE) EXCEPT !.ff = ff]
 
 P12 == [present |-> TRUE, pred |-> 12, colors |-> 1, bpc |-> 8, columns |-> 2, early |-> 1]
 P13 == [present |-> TRUE, pred |-> 13, colors |-> 1, bpc |-> 8, columns |-> 2, early |-> 1]
@@ -40,6 +45,7 @@ Starts ==
      S0(<<Flate>>, "array", <<P12>>, ZStored(PngEncode(<<1, 2>>, 1, 2, <<2>>), 65535), TRUE),
      S0(<<A85, Lzw>>, "none", <<>>, A85Encode(LzwEncode(<<3, 1, 2>>, 1, 4094), TRUE), TRUE),
      S0(<<"DCTDecode">>, "none", <<>>, <<255, 216>>, TRUE),
+     Zero("array", "none", <<3, 1, 2>>), Zero("array", "array", Compressible), Zero("null", "none", Compressible),
      S0(<<>>, "dict", <<P12>>, Compressible, TRUE)}          \* no filter, left-over DecodeParms (class compress.stale-decodeparms)
 
 NoOp == [op |-> "init", i |-> 0, pre |-> <<>>, arg |-> <<>>]
@@ -59,10 +65,10 @@ SetContent == \E i \in 1..2, b \in Contents : Step("set_content", i, b, [ss EXCE
 SetPlainContent == \E i \in 1..2, b \in Contents : Step("set_plain_content", i, b, [ss EXCEPT ![i] = ImplSetPlain(ss[i], b)])
 Compress == \E i \in 1..2 : \E c \in Candidates(ss[i].content) :
                 Step("compress", i, <<>>, [ss EXCEPT ![i] = ImplCompress(ss[i], c, DevStale)])
-Decompress == \E i \in 1..2 : Step("decompress", i, <<>>, [ss EXCEPT ![i] = ImplDecompress(ss[i], DevAvg, DevArr, FALSE)])
+Decompress == \E i \in 1..2 : Step("decompress", i, <<>>, [ss EXCEPT ![i] = ImplDecompress(ss[i], DevAvg, DevArr, FALSE, DevEmpty)])
 DocCompress == \E c1 \in Candidates(ss[1].content), c2 \in Candidates(ss[2].content) :
                 Step("doc_compress", 0, <<>>, ImplDocCompress(ss, <<c1, c2>>, DevStale))
-DocDecompress == Step("doc_decompress", 0, <<>>, ImplDocDecompress(ss, DevAvg, DevArr, FALSE))
+DocDecompress == Step("doc_decompress", 0, <<>>, ImplDocDecompress(ss, DevAvg, DevArr, FALSE, DevEmpty))
 
 Next == SetContent \/ SetPlainContent \/ Compress \/ Decompress \/ DocCompress \/ DocDecompress
 
